@@ -107,6 +107,22 @@ fn case(ctx: &mut Ctx, index: u64, rng: &mut Rng) {
     }
     sched.run_to_quiescence();
     let mut peer = RawPeer::new(&wire);
+    // in a quarter of the cases the APPLICATION holds the sequential interface exclusively (InterfaceRef::get_mut) while the burst
+    // arrives and releases it at some point of the gate order: calls must wait for it and still run in arrival order
+    let held = rng.chance(1, 4);
+    if held {
+        let (c3, g4) = (conn.clone(), gates.clone());
+        sched.spawn("holder", async move {
+            if let Ok(iref) = c3.object_server().interface::<_, Seq>("/seq").await {
+                let mut guard = iref.get_mut().await;
+                guard.n += 1;
+                wait_gate(g4, 9999).await;
+                drop(guard);
+            }
+        });
+        sched.run_to_quiescence();
+        ctx.count("class:interface-held-exclusively-by-the-application", 1);
+    }
     // the burst
     let n = 2 + rng.usize_below(if ctx.thorough() { 10 } else { 7 });
     let par_share = *rng.pick(&[0u64, 0, 30, 50]);
@@ -166,6 +182,10 @@ fn case(ctx: &mut Ctx, index: u64, rng: &mut Rng) {
                 order.push(first);
             }
         }
+    }
+    if held {
+        let at = rng.usize_below(order.len() + 1);
+        order.insert(at, 9999);
     }
     // some gates are opened before the calls even arrive
     let pre = rng.usize_below(order.len() + 1).min(if rng.bool() { 0 } else { order.len() });
